@@ -463,22 +463,17 @@ ClosedIsStable(o, o2) == /\ (o.have /\ ~o.hfp) => ~o2.hfp
 \* C01 at quiescence: every socket that is not idle in the pool is closed
 NoOrphanSocket(o) == (Quiet(o) /\ ~o.have) => (o.sock = "closed" \/ (o.pooled /\ o.csock))
 
-StateRule(o) ==
-  IF ~SlotAtMostOnce(o) THEN "SlotReturnedExactlyOnce"
-  ELSE IF ~SlotNotLost(o) THEN "SlotNotLost"
-  ELSE IF ~NotPooledWhileOpen(o) THEN "NotPooledWhileOpen"
-  ELSE IF ~NeverHangs(o) THEN "NeverHangs"
-  ELSE IF ~OnlyUrllib3Errors(o) THEN "OnlyUrllib3Errors"
-  ELSE IF ~InterruptsPropagate(o) THEN "InterruptsPropagate"
-  ELSE IF ~NoOrphanSocket(o) THEN "NoOrphanSocket"
-  ELSE "ok"
-TransRule(o, o2) ==
-  IF ~NoUseAfterRelease(o, o2) THEN "NoUseAfterRelease"
-  ELSE IF ~ShutdownActs(o, o2) THEN "ShutdownActs"
-  ELSE IF ~CutNeverComplete(o, o2) THEN "CutNeverComplete"
-  ELSE IF ~DisposalIdempotent(o, o2) THEN "DisposalIdempotent"
-  ELSE IF ~ClosedIsStable(o, o2) THEN "ClosedIsStable"
-  ELSE "ok"
+F(ok, name) == IF ok THEN {} ELSE {name}
+\* every clause that fails in one observation / between two consecutive observations (the trace monitor is total)
+StateFails(o) ==
+  F(SlotAtMostOnce(o), "SlotReturnedExactlyOnce") \cup F(SlotNotLost(o), "SlotNotLost")
+    \cup F(NotPooledWhileOpen(o), "NotPooledWhileOpen") \cup F(NeverHangs(o), "NeverHangs")
+    \cup F(OnlyUrllib3Errors(o), "OnlyUrllib3Errors") \cup F(InterruptsPropagate(o), "InterruptsPropagate")
+    \cup F(NoOrphanSocket(o), "NoOrphanSocket")
+TransFails(o, o2) ==
+  F(NoUseAfterRelease(o, o2), "NoUseAfterRelease") \cup F(ShutdownActs(o, o2), "ShutdownActs")
+    \cup F(CutNeverComplete(o, o2), "CutNeverComplete") \cup F(DisposalIdempotent(o, o2), "DisposalIdempotent")
+    \cup F(ClosedIsStable(o, o2), "ClosedIsStable")
 
 \* --------------------------------------------------------------- the same rules as TLC invariants / properties
 TypeOK == /\ \A t \in Threads : th[t].pc \in Labels
